@@ -179,6 +179,9 @@ def nat_conformance(h):
             'delete': lambda: delete_fields(['l', 'o'], resources='res_1'),
             'select': lambda: select_fields(['k', 'i', 'x'], resources='res_1'),
             'rename': lambda: rename_fields({'s': 'text'}, resources='res_1'),
+            # a swap and a chain: the target of one rename is the old name of another (differently typed) field
+            'rename-swap': lambda: rename_fields({'s': 'i', 'i': 's'}, resources='res_1'),
+            'rename-chain': lambda: rename_fields({'k': 'x', 'x': 'b', 'b': 'flag'}, resources='res_1'),
             'unpivot': lambda: unpivot([dict(name='i', keys=dict(what='i')), dict(name='x', keys=dict(what='x'))],
                                        [dict(name='what', type='string')], dict(name='val', type='number'), resources='res_1'),
             'set_type': lambda: set_type('i', type='number', resources='res_1'),
